@@ -158,7 +158,97 @@ pub fn replica_apply(r: &mut Replica, muts: &lightning_signer::persist::Mutation
     bad
 }
 
+/// A persister that refuses the next channel write on demand and otherwise hands every call to
+/// the real one: a crash (or a store failure) at the very point where a request writes the
+/// channel.  What the request did in memory before that write is then ahead of the store.
+pub struct FaultyPersister {
+    pub inner: Arc<MemPersister>,
+    /// armed: the next update_channel fails
+    pub armed: std::sync::atomic::AtomicBool,
+    /// number of writes refused so far
+    pub fired: std::sync::atomic::AtomicU64,
+}
+
+impl lightning_signer::SendSync for FaultyPersister {}
+
+impl FaultyPersister {
+    pub fn new(inner: Arc<MemPersister>) -> FaultyPersister {
+        FaultyPersister { inner, armed: Default::default(), fired: Default::default() }
+    }
+    pub fn arm(&self) {
+        self.armed.store(true, std::sync::atomic::Ordering::SeqCst);
+    }
+    /// disarm; true if it was still armed (the request wrote no channel)
+    pub fn disarm(&self) -> bool {
+        self.armed.swap(false, std::sync::atomic::Ordering::SeqCst)
+    }
+    pub fn fired(&self) -> u64 {
+        self.fired.load(std::sync::atomic::Ordering::SeqCst)
+    }
+}
+
+impl Persist for FaultyPersister {
+    fn new_node(&self, node_id: &PublicKey, config: &NodeConfig, state: &lightning_signer::node::NodeState) -> Result<(), lightning_signer::persist::Error> {
+        self.inner.new_node(node_id, config, state)
+    }
+    fn update_node(&self, node_id: &PublicKey, state: &lightning_signer::node::NodeState) -> Result<(), lightning_signer::persist::Error> {
+        self.inner.update_node(node_id, state)
+    }
+    fn delete_node(&self, node_id: &PublicKey) -> Result<(), lightning_signer::persist::Error> {
+        self.inner.delete_node(node_id)
+    }
+    fn new_channel(&self, node_id: &PublicKey, stub: &lightning_signer::channel::ChannelStub) -> Result<(), lightning_signer::persist::Error> {
+        self.inner.new_channel(node_id, stub)
+    }
+    fn delete_channel(&self, node_id: &PublicKey, channel: &lightning_signer::channel::ChannelId) -> Result<(), lightning_signer::persist::Error> {
+        self.inner.delete_channel(node_id, channel)
+    }
+    fn new_tracker(&self, node_id: &PublicKey, tracker: &lightning_signer::chain::tracker::ChainTracker<lightning_signer::monitor::ChainMonitor>) -> Result<(), lightning_signer::persist::Error> {
+        self.inner.new_tracker(node_id, tracker)
+    }
+    fn update_tracker(&self, node_id: &PublicKey, tracker: &lightning_signer::chain::tracker::ChainTracker<lightning_signer::monitor::ChainMonitor>) -> Result<(), lightning_signer::persist::Error> {
+        self.inner.update_tracker(node_id, tracker)
+    }
+    fn get_tracker(
+        &self,
+        node_id: PublicKey,
+        validator_factory: Arc<dyn lightning_signer::policy::validator::ValidatorFactory>,
+    ) -> Result<(lightning_signer::chain::tracker::ChainTracker<lightning_signer::monitor::ChainMonitor>, Vec<lightning_signer::persist::ChainTrackerListenerEntry>), lightning_signer::persist::Error> {
+        self.inner.get_tracker(node_id, validator_factory)
+    }
+    fn update_channel(&self, node_id: &PublicKey, channel: &lightning_signer::channel::Channel) -> Result<(), lightning_signer::persist::Error> {
+        if self.armed.swap(false, std::sync::atomic::Ordering::SeqCst) {
+            self.fired.fetch_add(1, std::sync::atomic::Ordering::SeqCst);
+            return Err(lightning_signer::persist::Error::Unavailable("injected: the channel write did not happen".to_string()));
+        }
+        self.inner.update_channel(node_id, channel)
+    }
+    fn get_channel(&self, node_id: &PublicKey, channel_id: &lightning_signer::channel::ChannelId) -> Result<lightning_signer::persist::model::ChannelEntry, lightning_signer::persist::Error> {
+        self.inner.get_channel(node_id, channel_id)
+    }
+    fn get_node_channels(&self, node_id: &PublicKey) -> Result<Vec<(lightning_signer::channel::ChannelId, lightning_signer::persist::model::ChannelEntry)>, lightning_signer::persist::Error> {
+        self.inner.get_node_channels(node_id)
+    }
+    fn update_node_allowlist(&self, node_id: &PublicKey, allowlist: Vec<String>) -> Result<(), lightning_signer::persist::Error> {
+        self.inner.update_node_allowlist(node_id, allowlist)
+    }
+    fn get_node_allowlist(&self, node_id: &PublicKey) -> Result<Vec<String>, lightning_signer::persist::Error> {
+        self.inner.get_node_allowlist(node_id)
+    }
+    fn get_nodes(&self) -> Result<Vec<(PublicKey, lightning_signer::persist::model::NodeEntry)>, lightning_signer::persist::Error> {
+        self.inner.get_nodes()
+    }
+    fn clear_database(&self) -> Result<(), lightning_signer::persist::Error> {
+        self.inner.clear_database()
+    }
+    fn signer_id(&self) -> lightning_signer::persist::SignerId {
+        self.inner.signer_id()
+    }
+}
+
 pub struct World {
+    /// Some: every node of this world runs on a persister that can refuse a channel write
+    pub faulty: Option<Arc<FaultyPersister>>,
     /// Some: the node runs on the transactional store (and `persister` is unused)
     pub cloud: Option<Arc<CloudPersister>>,
     pub replica: Arc<std::sync::Mutex<Replica>>,
@@ -189,7 +279,7 @@ impl World {
             use_checkpoints: false,
             allow_deep_reorgs: true,
         };
-        World { cloud: None, replica: Default::default(), onchain: false, persister, clock, policy, seed, config }
+        World { faulty: None, cloud: None, replica: Default::default(), onchain: false, persister, clock, policy, seed, config }
     }
 
     pub fn default_policy() -> SimplePolicy {
@@ -197,10 +287,20 @@ impl World {
     }
 
     pub fn dyn_persister(&self) -> Arc<dyn Persist> {
+        if let Some(f) = &self.faulty {
+            return f.clone();
+        }
         match &self.cloud {
             Some(c) => c.clone(),
             None => self.persister.clone(),
         }
+    }
+
+    /// from now on the nodes of this world run on a persister that can refuse a channel write
+    pub fn make_faulty(&mut self) -> Arc<FaultyPersister> {
+        let f = Arc::new(FaultyPersister::new(self.persister.clone()));
+        self.faulty = Some(f.clone());
+        f
     }
 
     pub fn services(&self) -> NodeServices {
